@@ -90,7 +90,7 @@ fn rule_for(s: Scenario) -> String {
     let specific = match s {
         Scenario::Crashfree => "histories of 30-200 calls over the 111 header key codes (any modifier, any selection byte), backspace, ctrl-backspace, commit(i<len), finish, update while idle, restart; 1-2 hosts; all 11 options, 3 layouts, 3 data profiles",
         Scenario::Wellformed => "as C01 but every selection byte is valid for the previously returned list; biased to long lists followed by selection-preserving punctuation with a high selection",
-        Scenario::HistoryIndependence => "a target text, a planted learned store held fixed, 2-4 executions reaching the text (straight, edit histories, warm memo, after restart) and an interleaved bystander context with another configuration and data profile",
+        Scenario::HistoryIndependence => "a target text, a planted learned store held fixed, 2-4 executions reaching the text (straight, edit histories, warm memo, after restart) and an interleaved bystander context with another configuration and data profile; in about a third of the runs the user's auto-correct list (present from the start or not) is rewritten half-way - entry deleted, changed, added, list emptied - and every context re-loads it while idle before the target is typed",
         Scenario::SessionReset => "history, terminating event, fork of a fresh reference context over a copy of the disk, continuation in lock step; both methods",
         Scenario::LearnedDurability => "2-12 words typed, committed (other / preselected) or abandoned, retyped bare and with known suffixes, restarts at event boundaries; reference map of acknowledged choices",
         Scenario::UserfileFaults => "1-2 hosts, the editor, the fault injector and the clock; faults armed right before the commit / restart / spawn / update they should bite; swarm-selected fault kinds",
@@ -109,8 +109,9 @@ fn assumptions_for(s: Scenario) -> Vec<String> {
         "SimDisk models std::fs::write as open(O_TRUNC) + write_all; error at open leaves the file untouched, error or crash afterwards leaves a prefix".to_string(),
     ];
     match s {
-        Scenario::Crashfree => v.push("time bound 2 s per call, compositions capped (quick 40, thorough 100 keys); a slow call is reported only if three single-threaded re-executions of the minimised trace exceed the bound".into()),
-        Scenario::FixedRules => v.push("the reference model is partial where the statement is silent (counted under unspecified_steps, never a violation)".into()),
+        Scenario::Crashfree => v.push("'no unbounded blow-up in time' is judged by two bounds per call, compositions capped (quick 40, thorough 100 keys): a deterministic one (bytes requested from the allocator by the call, 1 GiB; max_call_allocated_bytes is the largest seen) and 2 s of thread CPU time; a slow call is reported only if the worker sees it again twice at half the bound and three single-threaded re-executions of the minimised trace exceed a quarter of it".into()),
+        Scenario::FixedRules => v.push("the reference model is partial where the statement is silent (counted under unspecified_steps, never a violation); a vowel sign without independent form that meets a vowel-forming rule may compose nothing, be appended, or become the vowel that matches it in Unicode, nothing else".into()),
+        Scenario::HistoryIndependence => v.push("when the user's auto-correct list is rewritten during a run, only contexts that re-loaded it afterwards (idle update_engine, or created later) are compared; deleting the file is not used as an edit".into()),
         Scenario::Reph => v.push("placement is judged only for texts matching the syllable grammar; an independent vowel directly after a vowel-less cluster is not judged".into()),
         Scenario::UserfileFaults => v.push("mid-read EIO after a successful open is not injected; a torn store may lose more than one choice for a new context (inside the statement)".into()),
         Scenario::Reconfigure => v.push("clock faults (mtime tie / regress / file deleted) are reported as informational divergences, never as violations".into()),
